@@ -39,12 +39,21 @@ type Behaviour struct {
 type Net struct {
 	Routes map[string]*Behaviour
 	Hits   []Hit
+	// Headers are sent with every answer (what a responder, a proxy or a CDN in front of it may add: none of it is
+	// signed, none of it is configuration)
+	Headers http.Header
 }
 
 var ErrRefused = errors.New("dial tcp: connection refused (scripted)")
 
 func NewNet() *Net {
-	n := &Net{Routes: map[string]*Behaviour{}}
+	n := &Net{Routes: map[string]*Behaviour{}, Headers: http.Header{
+		"Cache-Control": {"max-age=86400, public, no-transform, must-revalidate"},
+		"Expires":       {"Fri, 01 Jan 2100 00:00:00 GMT"},
+		"Last-Modified": {"Mon, 01 Jan 2001 00:00:00 GMT"},
+		"Etag":          {"\"0123456789abcdef\""},
+		"Age":           {"4000"},
+	}}
 	http.DefaultTransport = n
 	http.DefaultClient = &http.Client{Transport: n}
 	return n
@@ -95,11 +104,19 @@ func (n *Net) RoundTrip(req *http.Request) (*http.Response, error) {
 		Status:     fmt.Sprintf("%d scripted", status),
 		StatusCode: status,
 		Proto:      "HTTP/1.1", ProtoMajor: 1, ProtoMinor: 1,
-		Header:        http.Header{},
+		Header:        n.headers(),
 		Body:          rc,
 		ContentLength: -1,
 		Request:       req,
 	}, nil
+}
+
+func (n *Net) headers() http.Header {
+	h := http.Header{}
+	for k, v := range n.Headers {
+		h[k] = append([]string{}, v...)
+	}
+	return h
 }
 
 func (n *Net) Serve(url string, label string, body []byte) {
